@@ -86,6 +86,9 @@ FUNCS += [
     dict(id='PopBack', file='src/pointer.rs', fn='pop_back', impl=BUF_IMPL, lean='PointerBuf.pop_back', params=[('self', 'bufself')], ret='mutself', rtype='Bytes × Option Bytes'),
     dict(id='Append', file='src/pointer.rs', fn='append', impl=BUF_IMPL, lean='PointerBuf.append', params=[('self', 'bufself'), ('other', 'asrefptr')], ret='mutself', rtype='Bytes', imports=['IsRoot']),
     dict(id='Clear', file='src/pointer.rs', fn='clear', impl=BUF_IMPL, lean='PointerBuf.clear', params=[('self', 'bufself')], ret='mutself', rtype='Bytes'),
+    dict(id='PopFront', file='src/pointer.rs', fn='pop_front', impl=BUF_IMPL, lean='PointerBuf.pop_front', params=[('self', 'bufself')], ret='mutself', rtype='Bytes × Option Bytes', imports=['IsRoot']),
+    dict(id='Replace', file='src/pointer.rs', fn='replace', impl=BUF_IMPL, lean='PointerBuf.replace', params=[('self', 'bufself'), ('index', 'nat'), ('token', 'intotoken')],
+         ret='mutself', rtype='Bytes × Res ReplaceErr (Option Bytes)', imports=['IsRoot', 'Count']),
 ]
 FUNCS += [
     dict(id='IndexFromStr', file='src/index.rs', fn='from_str', impl=r"impl FromStr for Index", lean='Index.from_str',
@@ -204,6 +207,7 @@ class Fn:
                     if s[1][0] == 'path' and len(s[1][1]) == 1:
                         if s[1][1][0] not in decl: add(s[1][1][0])
                     elif s[1] == ('field', ('path', ['self']), '0'): add('self_0')
+                    elif s[1][0] == 'index' and s[1][1][0] == 'path' and len(s[1][1][1]) == 1: add(s[1][1][1][0])
                     else: raise Unsupported("assignment to a place expression")
                 else: expr(s[1], decl)
         def expr(e, decl):
@@ -393,6 +397,12 @@ class Fn:
                 return self.E(args[0], env, ctx, lambda a, ta: k(f"(some {a})", mk_opt('bytes' if ta in BYTESLIKE else ta)))
             if ps in ('Vec::with_capacity', 'String::with_capacity') and len(args) == 1:
                 return k('([] : Bytes)', 'bytes')
+            if ps in ('core::mem::replace', 'mem::replace', 'std::mem::replace') and len(args) == 2 and args[0] == ('un', '&', ('field', ('path', ['self']), '0')) and env.get('self_0') == 'bytes':
+                old = self.fresh('old')
+                return self.E(args[1], env, ctx, lambda a, ta: f"let {old} := self_0\nlet self_0 := {a}\n{k(old, 'bytes')}")
+            if ps in ('core::mem::take', 'mem::take', 'std::mem::take') and len(args) == 1 and args[0] == ('un', '&', ('field', ('path', ['self']), '0')) and env.get('self_0') == 'bytes':
+                old = self.fresh('old')
+                return f"let {old} := self_0\nlet self_0 := ([] : Bytes)\n{k(old, 'bytes')}"
             if ps in ('Vec::new', 'String::new') and not args: return k('([] : Bytes)', 'bytes')
             if ps == 'String::from' and len(args) == 1: return self.E(args[0], env, ctx, lambda a, ta: k(a, 'bytes') if ta in BYTESLIKE else self.bad("String::from(" + ta + ")"))
             if ps == 'ParseIndexError::InvalidCharacter' and len(args) == 1:
@@ -446,6 +456,9 @@ class Fn:
                     if i == len(want): return k(f"(ResolveErr.{ctor} {' '.join(acc)})", 'resolveerr')
                     return self.E(fields[want[i]], env, ctx, lambda a, ta: go(i + 1, acc + [a]))
                 return go(0, [])
+            if ps == 'ReplaceError' and set(fields) == {'count', 'index'}:
+                return self.E(fields['index'], env, ctx, lambda iv, _: self.E(fields['count'], env, ctx,
+                              lambda cv, __: k(f"(ReplaceErr.mk {iv} {cv})", 'replaceerr')))
             if ps == 'InvalidCharacterError' and set(fields) == {'source', 'offset'}:
                 return self.E(fields['source'], env, ctx, lambda sv, _: self.E(fields['offset'], env, ctx,
                               lambda ov, __: k(f"(ParseIndexError.invalidCharacter {sv} {ov})", 'pie')))
@@ -492,6 +505,39 @@ class Fn:
                 else: raise Unsupported("closure pattern")
             return '(' + ', '.join(names) + ')', env2
         raise Unsupported("closure pattern")
+    def rename(self, node, old, new):
+        if isinstance(node, list): return [self.rename(c, old, new) for c in node]
+        if isinstance(node, tuple):
+            if node and node[0] == 'path' and node[1] == [old]: return ('path', [new])
+            if node and node[0] == 'pbind' and node[1] == old: return ('pbind', new)
+            return tuple(self.rename(c, old, new) for c in node)
+        return node
+    def has_stmts(self, e):
+        if not isinstance(e, tuple) or not e: return False
+        if e[0] == 'block': return bool(e[1]) or self.has_stmts(e[2])
+        if e[0] in ('if',): return self.has_stmts(e[2]) or self.has_stmts(e[3])
+        if e[0] == 'iflet': return self.has_stmts(e[3]) or self.has_stmts(e[4])
+        return False
+    def V(self, e, env, ctx, kv):
+        """value of a control-flow expression whose branches may contain statements and effects; kv(term, type, env)"""
+        t = e[0]
+        if t == 'block':
+            if e[2] is None: raise Unsupported("block without a value")
+            return self.S(list(e[1]), env, ctx, lambda env2: self.V(e[2], env2, ctx, kv))
+        if t == 'if':
+            if e[3] is None: raise Unsupported("value `if` without else")
+            return self.C(e[1], env, ctx, self.V(self.as_block(e[2]), env, ctx, kv), self.V(self.as_block(e[3]), env, ctx, kv))
+        if t == 'iflet':
+            pat = self.strip_ref(e[1])
+            if e[4] is None or not (pat[0] == 'pctor' and self.pathstr(pat[1]) == 'Some' and len(pat[2]) == 1 and pat[2][0][0] == 'pbind'):
+                raise Unsupported("value `if let` shape")
+            v = pat[2][0][1]
+            def after(a, ta):
+                if not is_opt(ta): raise Unsupported("if let on " + ta)
+                env2 = dict(env); env2[v] = opt_inner(ta)
+                return paren(f"match {a} with\n| some {v} =>\n{ind(self.V(self.as_block(e[3]), env2, ctx, kv))}\n| none =>\n{ind(self.V(self.as_block(e[4]), env, ctx, kv))}")
+            return self.E(e[2], env, ctx, after)
+        return self.E(e, env, ctx, lambda a, ta: kv(a, ta, env))
     def bad(self, what):
         raise Unsupported(what)
 
@@ -604,6 +650,9 @@ class Fn:
                     return self.E(args[0], env, ctx, lambda i, ti: k(f"{r}[{i}]?", 'optnat') if ti == 'nat' else self.bad("get(" + ti + ")"))
                 if name == 'tokens' and not args and tr == 'ptrself': return k(f"(tokens {r})", 'toklist')
             if tr == 'toklist':
+                if name == 'collect' and not args: return k(r, 'toklist')
+                if name == 'len' and not args: return k(f"{r}.length", 'nat')
+                if name == 'get' and len(args) == 1: return self.E(args[0], env, ctx, lambda i, ti: k(f"{r}[{i}]?", 'opt(tok)'))
                 if name == 'count' and not args: return k(f"{r}.length", 'nat')
                 if name == 'zip' and len(args) == 1:
                     return self.E(args[0], env, ctx, lambda a, ta: k(f"(List.zip {r} {a})", 'zip') if ta == 'toklist' else self.bad("zip with " + ta))
@@ -613,6 +662,7 @@ class Fn:
             if is_opt(tr):
                 inner = opt_inner(tr)
                 if name in ('copied', 'cloned') and not args: return k(r, tr)
+                if name == 'map' and len(args) == 1 and args[0][0] == 'path' and args[0][1][-1] in ('to_owned', 'into_owned', 'clone'): return k(r, 'opt(bytes)' if inner in BYTESLIKE else tr)
                 if name in ('map', 'filter') and len(args) == 1 and args[0][0] == 'closure':
                     pat, env2 = self.closure_head(args[0], inner, env)
                     if name == 'filter':
@@ -841,10 +891,12 @@ class Fn:
             pat, mut, init = st[1], st[2], st[3]
             if init is None: raise Unsupported("let without initialiser")
             if pat[0] == 'pbind':
-                def after(a, ta):
-                    env2 = dict(env); env2[pat[1]] = ta
+                def after(a, ta, envv=None):
+                    env2 = dict(envv if envv is not None else env); env2[pat[1]] = 'bytes' if ta in ('tok', 'ptrself') and mut else ta
                     if a == pat[1]: return rest(env2)
                     return f"let {pat[1]} := {a}\n{rest(env2)}"
+                if init[0] in ('if', 'iflet', 'block') and (self.effectful(init) or self.has_stmts(init)):
+                    return self.V(init, env, ctx, lambda a, ta, e3: after(a, ta, e3))
                 return self.E(init, env, ctx, after)
             if pat[0] == 'ptuple' and all(q[0] == 'pbind' for q in pat[1]):
                 def after(a, ta):
@@ -861,6 +913,17 @@ class Fn:
             lhs, op, rhs = st[1], st[2], st[3]
             if lhs[0] == 'field' and lhs[1] == ('path', ['self']) and lhs[2] == '0' and env.get('self_0') == 'bytes':
                 lhs = ('path', ['self_0'])
+            if lhs[0] == 'index' and lhs[1][0] == 'path' and len(lhs[1][1]) == 1 and env.get(lhs[1][1][0]) == 'toklist' and op == '=':
+                lv = lhs[1][1][0]
+                # `tokens[i] = x`: a checked store (out of range panics)
+                def aft_i(i, ti):
+                    def aft_x(x, tx):
+                        if tx not in BYTESLIKE: raise Unsupported("element of type " + tx)
+                        oob = ctx.ret(PANIC_IDX) if self.retkind != 'mutself' else ctx.ret('(Res' + PANIC_IDX + ')')
+                        inner = f"let {lv} := {lv}.set {i} {x}" + chr(10) + rest(env)
+                        return paren(f"if {i} < {lv}.length then\n{ind(inner)}\nelse {oob}")
+                    return self.E(rhs, env, ctx, aft_x)
+                return self.E(lhs[2], env, ctx, aft_i)
             if lhs[0] != 'path' or len(lhs[1]) != 1 or lhs[1][0] not in env: raise Unsupported("assignment target")
             v = lhs[1][0]
             def after(a, ta):
@@ -907,6 +970,9 @@ class Fn:
                     return self.E(args[1], env, ctx, aft_x)
                 return self.E(args[0], env, ctx, aft_i)
             raise Unsupported("String method " + name)
+        if t == 'mcall' and e[2] == 'remove' and e[1][0] == 'path' and len(e[1][1]) == 1 and env.get(e[1][1][0]) == 'bytes' and e[3] == [('num', 0)]:
+            v = e[1][1][0]
+            return f"let {v} := {v}.drop 1\n{rest(env)}"
         if t == 'mcall' and e[2] in ('push', 'extend_from_slice', 'push_str') and e[1][0] == 'path' and len(e[1][1]) == 1 and len(e[3]) == 1:
             v = e[1][1][0]
             if env.get(v) != 'bytes': raise Unsupported(e[2] + " on a non-buffer")
@@ -1013,6 +1079,13 @@ class Fn:
                 raise Unsupported("returned " + ta)
             return self.E(e, env, ctx, after)
         if rk == 'mutself':
+            if t == 'mcall' and e[2] == 'then' and len(e[3]) == 1 and e[3][0][0] == 'closure' and not e[3][0][1]:
+                # `cond.then(|| { … })` as the returned value: `if cond { Some({ … }) } else { None }`
+                body = self.as_block(e[3][0][2])
+                return self.C(e[1], env, ctx, self.V(body, env, ctx, lambda a, ta, e3: ctx.ret(f"(some {a})")), ctx.ret('none'))
+            if t == 'call' and e[1][0] == 'path' and self.pathstr(e[1][1]) in ('Ok', 'Err') and len(e[2]) == 1:
+                w = 'Res.ok' if self.pathstr(e[1][1]) == 'Ok' else 'Res.err'
+                return self.E(e[2][0], env, ctx, lambda a, ta: ctx.ret(f"({w} {a})"))
             if t == 'path' and e[1] == ['self']: return ctx.ret('()')
             if t == 'path' and e[1] == ['None']: return ctx.ret('none')
             return self.E(e, env, ctx, lambda a, ta: ctx.ret(a))
@@ -1081,7 +1154,11 @@ class Fn:
         iname = (ip[1] if ip[0] == 'pbind' else '_i') if enum else None
         bound = [xname] + ([iname] if enum else [])
         for b in bound:
-            if b in env: raise Unsupported("loop variable shadows " + b)
+            if b in env:
+                if tys == 'zip' or enum: raise Unsupported("loop variable shadows " + b)
+                nb = b + "_"
+                while nb in env: nb += "_"
+                body = self.rename(body, b, nb); xname = nb; bound = [nb]
         muts, caps = self.loop_common(body, env, bound)
         has_ret = self.escapes(body, in_loop=True)
         self.nloop += 1
